@@ -266,8 +266,10 @@ static void c02_file(const rfile_t* f, uint64_t key, bool deep) {
     }
     free(x); ref_buf_free(&img); ref_arena_free(&RA);
 }
-static void c03_file(const rfile_t* f, uint64_t key) {
+static void c03_file(const rfile_t* f0, uint64_t key) {
     if (!mc_next()) return;
+    /* stages that leave the hybrid forms at their default cycle through all seven forms (RLE runs only, bit-packed groups only, mixed, short runs, zero-length runs, padded groups, single groups) by case key */
+    rfile_t fv = *f0; if (fv.level_form == 0 && fv.index_form == 0) { fv.level_form = (int)(key % REF_H_NFORMS); fv.index_form = (int)((key / REF_H_NFORMS) % REF_H_NFORMS); } const rfile_t* f = &fv;
     const char* fd = rf_desc(f); mc_desc("c03:%s", fd); mc_case_key(key); mc_nontrivial();
     ref_buf img; ref_buf_init(&img); static ref_coldata cols[4 * RF_MAXC]; int np = 0;
     if (rf_build(&RA, f, &img, NULL, 0, &np, cols)) mc_harness_error("reference writer failed: %s", fd);
